@@ -277,6 +277,9 @@ fn check_case(model: &mut Model, c: &Case, mut rep: Option<&mut Report>) -> Opti
         f.extend_from_slice(&z);
         let _ = e.load_snapshot(rustzx_core::host::Snapshot::Szx(VAsset::new(f)));
         while e.next_audio_sample().is_some() {}
+        // a zero-length bus wait lets the mixer catch up with the restored frame position, as the first cycle of the
+        // loaded program would
+        e.verif_wait(0);
         fc = e.verif_frame_clocks();
         // the model is told where the frame stands: time passes without a sample being due before that point
         // only if the real mixer agrees; a plain wait of that length describes it
